@@ -365,10 +365,12 @@ def run_case(case):
         if N > 1:
             if reaped == want_finish:
                 C('forced_permutations_observed')
-            else:
+            elif not viol:
                 return {'inconclusive': 'requested finish order %r not '
                         'realised: %r' % (want_finish, reaped),
                         'counters': counters}
+            # (a run that already differs from the sequential one is a
+            # violation whatever finish order came about)
     finally:
         vworld.destroy(root)
     sig = None
